@@ -47,6 +47,16 @@ type c08Case struct {
 var c08LeafDefects = []string{"missing-link", "forged-link", "tampered-link", "rule-violation", "threshold"}
 var c08SubDefects = []string{"sub-foreign-sig", "sub-bad-sig", "sub-missing-dir", "sub-expired", "sub-inspection-fails", "sub-dir-in-cwd", "sub-disagree", "sub-two-spellings"}
 
+// c08Decor is appended to every generated step name of the case being drawn (step names are free
+// text: characters that mean something to a file-name pattern must not mean anything here).
+var c08Decor string
+
+// c08FileOf names the artifact a step creates. Artifact names appear as patterns in the generated
+// rules, so what the decoration of the step name adds is spelled out harmlessly.
+func c08FileOf(step string) string {
+	return "f-" + strings.NewReplacer("[", "(", "]", ")", "*", "+", "?", "+", "\\", "+", " ", "_").Replace(step)
+}
+
 func c08GenLevel(t *rapid.T, depth int, path string, allowSub bool) c08Level {
 	n := rapid.IntRange(1, 2).Draw(t, "nsteps"+path)
 	lv := c08Level{Inspection: rapid.Bool().Draw(t, "insp"+path)}
@@ -55,7 +65,7 @@ func c08GenLevel(t *rapid.T, depth int, path string, allowSub bool) c08Level {
 		subAt = rapid.IntRange(0, n-1).Draw(t, "subat"+path)
 	}
 	for i := 0; i < n; i++ {
-		name := fmt.Sprintf("%s%s%d", path, []string{"z", "a", "m"}[i%3], i) // declared order is not the alphabetical one
+		name := fmt.Sprintf("%s%s%d%s", path, []string{"z", "a", "m"}[i%3], i, c08Decor) // declared order is not the alphabetical one
 		if i == 0 && path != "" && rapid.IntRange(0, 3).Draw(t, "samename"+path) == 0 {
 			// a nested step that is called like the step it belongs to (build / build)
 			name = strings.TrimSuffix(path, ".")
@@ -68,9 +78,9 @@ func c08GenLevel(t *rapid.T, depth int, path string, allowSub bool) c08Level {
 			st.Sub = &sub
 			st.Plain = nf >= 2 && rapid.IntRange(0, 2).Draw(t, "plain"+name) == 0
 		} else {
-			st.Creates = "f-" + name
+			st.Creates = c08FileOf(name)
 			if i > 0 && rapid.IntRange(0, 1).Draw(t, "del"+name) == 0 {
-				st.Deletes = "f-" + lv.Steps[i-1].Name
+				st.Deletes = c08FileOf(lv.Steps[i-1].Name)
 			}
 		}
 		lv.Steps = append(lv.Steps, st)
@@ -110,6 +120,7 @@ func c08StepAt(lv *c08Level, p []int) *c08Step {
 func c08Gen(t *rapid.T) c08Case {
 	c := c08Case{Wrapper: rapid.SampledFrom([]string{"legacy", "dsse"}).Draw(t, "wrapper"), Entry: rapid.SampledFrom([]string{"cwd", "rundir"}).Draw(t, "entry")}
 	depth := rapid.IntRange(1, 2).Draw(t, "depth")
+	c08Decor = rapid.SampledFrom([]string{"", "", "", "[x86]", "\\q", " (2)", "[", "*"}).Draw(t, "namedecor")
 	c.Root = c08GenLevel(t, depth, "", true)
 	c.Evil = rapid.IntRange(0, 2).Draw(t, "evil") == 0
 	c.CertSub = c.Wrapper == "legacy" && rapid.IntRange(0, 2).Draw(t, "certsub") == 0
@@ -384,7 +395,7 @@ func (b *c08Builder) buildLevel(lv c08Level, dir string, isRoot bool) hx.MLayout
 			}
 			if b.c.ParentForbids && isRoot && !b.firstSub {
 				// an artifact that exists only inside the sublayout (created and deleted there) or never at all
-				inner := "f-" + st.Sub.Steps[0].Name
+				inner := c08FileOf(st.Sub.Steps[0].Name)
 				ms.ExpProd = append([][]string{{"DISALLOW", inner}}, ms.ExpProd...)
 				if _, still := b.tree[inner]; still {
 					b.defects = append(b.defects, "parent-forbids-delivered@"+st.Name)
